@@ -47,6 +47,19 @@ TopsAll == {Top(k, r, n) : k \in TopKinds, r \in BOOLEAN, n \in BOOLEAN}
            \ {Top(k, r, TRUE) : k \in {"macro", "fmacro"}, r \in BOOLEAN}
 TopSrcs == {"cwd", "I", "S"}
 
+\* --- aliases: a signature reaches a class through typedef / using aliases (one or two levels, wrappers inside)
+AliasForms == {<<"typedef", "plain">>, <<"using", "plain">>, <<"typedef", "cptr">>, <<"typedef", "cref">>, <<"typedef", "rref">>}
+AliasFormsT == {<<f, w>> : f \in {"typedef", "using"}, w \in {"plain", "ptr", "cptr", "cref", "rref"}}
+UseA(k, l, uw) == [Mem(k, l) EXCEPT !.uw = uw]
+AliasMembers == <<{Mem("meth", "published")} \cup {UseA(k, "published", uw) : k \in {"usea", "reta"}, uw \in {"ptr", "cref", "val"}}, {}>>
+AliasTops == {[Top("usefa", TRUE, FALSE) EXCEPT !.uw = uw] : uw \in {"ptr", "val"}}
+AliasHeads == {<<"class", FALSE, FALSE>>}
+AliasCmds == {"ignoreinvolved", "ignoretype"}
+AliasSrcs == {"cwd", "I"}
+\* --- aliasnest: a class with a nested class, a nested alias of it, and a member that uses the alias
+ANMembers == <<{UseA("usea", "published", "ptr")}, {Mem("meth", "published")}>>
+ANForms == {<<"typedef", "plain">>, <<"using", "plain">>}
+
 \* --- commands on members
 CmdHeads == {<<"class", FALSE, FALSE>>}
 CmdMembers == <<{Mem(k, "published") : k \in {"meth", "data", "dtor", "usep"}}, {}>>
@@ -64,6 +77,7 @@ M10 == <<1, 0>>
 None == {}
 NoComment == {""}
 NestCS == {"class", "struct"}
+AliasLabels == {"published", "public", "private"}
 DumpFile == IF "VERIF_DUMP" \in DOMAIN IOEnv THEN IOEnv.VERIF_DUMP ELSE ""
 
 \* references to a nested class of another class must be accessible C++ (public nested type)
@@ -76,6 +90,17 @@ WFRefs ==
   \* the visibility of a class that is a namespace member is never stamped by build(): "exported if itself
   \* visible" is claimed for global-scope and nested classes only (a namespace member needs a visible member)
   /\ \A c \in 1..NC : (done /\ Cls(c).ns /\ Cls(c).outer = 0 /\ lib.minvis = "public") => AnyVisibleMember(c)
+  \* how an alias is used agrees with what it names: a chain that already carries a pointer / reference is used by
+  \* value, a plain chain by pointer or const reference; at most one wrapper per chain; "reta" returns by pointer/value
+  /\ \A a \in 1..NA : Cardinality(ChainWraps(a)) <= 1 /\ (Ali(a).tt = "alias" /\ Ali(a).wrap # "plain" => ChainWraps(Ali(a).tc) = {})
+  /\ \A c \in 1..NC : \A i \in 1..NM(c) : LET m == Mbr(c, i) IN
+       NeedsAlias(m.k) => /\ (m.uw = "val") <=> (ChainWraps(m.ra) # {})
+                          /\ (m.k = "reta" => m.uw # "cref" /\ "rref" \notin ChainWraps(m.ra))
+                          /\ TargetClass(m.ra) # c
+  /\ \A t \in 1..NT : LET d == lib.tops[t] IN NeedsAlias(d.k) => ((d.uw = "val") <=> (ChainWraps(d.ra) # {}))
+  \* a namespace-scope alias names a namespace-scope class; nested aliases carry an explicit access label
+  /\ \A a \in 1..NA : Ali(a).scope = 0 => Cls(TargetClass(a)).outer = 0 /\ ~Cls(TargetClass(a)).ns
+  /\ \A a \in 1..NA : Ali(a).scope # 0 => Mbr(Ali(a).scope, Ali(a).at).lab \in AliasLabels
   \* one destructor, one get_class_type, one constructor signature per class (valid C++)
   /\ \A c \in 1..NC : \A k \in {"dtor", "gct", "ctor"} : Cardinality({i \in 1..NM(c) : Mbr(c, i).k = k}) <= 1
 
